@@ -1045,6 +1045,8 @@ fn part_direct(ev: &mut Ev, model: &mut Model, opts: &Opts, b: &Builtins) {
             let a = gen_raw(&mut r, &d, 2);
             let b2 = if r.below(4) == 0 { gen_raw(&mut r, &d, 2) } else { vary_raw(&a, &mut r, &d) };
             reqs.push(format!("(equal {} {})", render_val(&a), render_val(&b2)));
+            reqs.push(format!("(wf {})", render_val(&a)));
+            reqs.push(format!("(wf {})", render_val(&b2)));
             pairs.push((a, b2));
         }
         let ans = model.ask_all(&reqs);
@@ -1053,8 +1055,28 @@ fn part_direct(ev: &mut Ev, model: &mut Model, opts: &Opts, b: &Builtins) {
                 Ok(x) => x.to_string(),
                 Err(p) => format!("panic {}", p.lines().next().unwrap_or("")),
             };
-            let want = &ans[k + 1];
+            let want = &ans[3 * k + 1];
+            let model_wf = ans[3 * k + 2] == "true" && ans[3 * k + 3] == "true";
             ev.case(&(i, k, render_val(a), render_val(b2)), true);
+            if model_wf && !stale {
+                ev.hit("direct:well-formed-pair");
+                // instance of valuesEqual_iff_erase on the implementation itself (process handles in
+                // raw values are arbitrary, so pairs with two handles of one pid are left to the tie)
+                let t = Tables { tuples: &tuples, consts: &consts, heap: &heap };
+                let mut procs = vec![];
+                collect_procs(a, &mut procs);
+                collect_procs(b2, &mut procs);
+                let mut pf: HashMap<usize, usize> = HashMap::new();
+                let coherent = procs.iter().all(|(p, f)| *pf.entry(*p).or_insert(*f) == *f);
+                if coherent && (got == "true") != (erase_str(a, &t) == erase_str(b2, &t)) && !got.starts_with("panic") {
+                    ev.violation(
+                        &format!("equal=wrong-verdict form=values_equal kinds={}", a.type_name()),
+                        &format!("values_equal({}, {}) = {got} but erasures are {} vs {}", render_val(a), render_val(b2), erase_str(a, &t), erase_str(b2, &t)),
+                        json!({"ctx": reqs[0], "a": render_val(a), "b": render_val(b2), "impl": got}),
+                        true,
+                    );
+                }
+            }
             ev.hit(&format!("direct:{}:{got}", a.type_name()));
             if stale {
                 ev.hit("direct:stale-canonical-table");
@@ -1063,14 +1085,34 @@ fn part_direct(ev: &mut Ev, model: &mut Model, opts: &Opts, b: &Builtins) {
                 // does the property fail on well-formed operands? (oracle: erasures)
                 let t = Tables { tuples: &tuples, consts: &consts, heap: &heap };
                 let (ea, eb) = (erase_str(a, &t), erase_str(b2, &t));
-                let wf_known = !ea.contains("bad") && !eb.contains("bad") && !stale;
-                let oracle_fails = wf_known && (got == "true") != (ea == eb);
+                let oracle_fails = model_wf && !stale && (got == "true") != (ea == eb);
                 ev.violation(
                     &format!("tie=values_equal arm={}", a.type_name()),
                     &format!("values_equal({}, {}) = {got}, model valuesEqual = {want}", render_val(a), render_val(b2)),
                     json!({"broken": "correspondence model<->impl on values_equal (direct, verif hook)", "ctx": reqs[0], "a": render_val(a), "b": render_val(b2), "impl": got, "model": want, "erase_a": ea, "erase_b": eb}),
                     oracle_fails,
                 );
+            }
+        }
+    }
+    // oracle on the implementation: refs minted at distinct (worker, counter < 2^48) are distinct
+    {
+        let mut seen: HashMap<u64, (u16, u64)> = HashMap::new();
+        for w in [0u16, 1, 2, 3, 255, 256, 65535] {
+            for c in [0u64, 1, 2, 1 << 8, 1 << 16, (1 << 16) + 1, 1 << 24, 1 << 32, (1 << 32) + 1, 1 << 40, 1 << 47, (1 << 48) - 1] {
+                let mut ex = qverif::run::Exec::new(b.clone(), false, w);
+                ex.verif_set_next_ref(c);
+                if let Ok(Value::Reference(x)) = qverif::catch(|| ex.verif_create_ref()) {
+                    ev.hit("direct:create_ref-within-guard");
+                    if let Some((w0, c0)) = seen.insert(x, (w, c)) {
+                        ev.violation(
+                            "refs=collision-within-guard",
+                            &format!("worker {w0} at counter {c0} and worker {w} at counter {c} mint the same ref {x}"),
+                            json!({"part": "create_ref", "first": [w0 as u64, c0], "second": [w as u64, c], "ref": x}),
+                            true,
+                        );
+                    }
+                }
             }
         }
     }
@@ -1102,6 +1144,121 @@ fn part_direct(ev: &mut Ev, model: &mut Model, opts: &Opts, b: &Builtins) {
                 }
                 c = c.wrapping_add(1);
             }
+        }
+    }
+}
+
+// ---------- (e) Equal(n) for every n on hand-assembled bytecode (the compiler only emits Equal(2)) ----------
+
+fn part_equaln(ev: &mut Ev, model: &mut Model, opts: &Opts, b: &Builtins) {
+    use quiver_core::bytecode::{Bytecode, Function, Instruction};
+    use quiver_core::types::Type;
+    let n = opts.tier.pick(800u64, 8000u64);
+    let pool: [&[u8]; 3] = [&[], &[1], &[1, 2]];
+    for i in 0..n {
+        let mut r = Rng::for_case(opts.seed ^ 0xE9_0006, i);
+        // constants: a few integers and binaries, with duplicates of content at different indices
+        let consts: Vec<Constant> = (0..2 + r.usize(4))
+            .map(|_| {
+                if r.below(2) == 0 {
+                    Constant::Integer(num_bigint::BigInt::from(r.range(0, 2)))
+                } else {
+                    Constant::Binary(pool[r.usize(pool.len())].to_vec())
+                }
+            })
+            .collect();
+        let pushes = r.usize(6);
+        // mostly all the same constant content (so that a position-dependent bug shows), one odd one out
+        let base = r.usize(consts.len());
+        let mut seq: Vec<usize> = (0..pushes)
+            .map(|_| {
+                // another index with the same content if there is one
+                let same: Vec<usize> = (0..consts.len()).filter(|&k| consts[k] == consts[base]).collect();
+                same[r.usize(same.len())]
+            })
+            .collect();
+        if pushes > 0 && r.below(2) == 0 {
+            let k = r.usize(pushes);
+            seq[k] = r.usize(consts.len());
+        }
+        let count = match r.below(8) {
+            0 => 0,
+            1 => pushes + 2,
+            _ => r.usize(pushes + 2),
+        };
+        let mut instructions: Vec<Instruction> = seq.iter().map(|&k| Instruction::Constant(k)).collect();
+        instructions.push(Instruction::Equal(count));
+        let bc = Bytecode {
+            constants: consts.clone(),
+            functions: vec![Function { instructions, captures: 0, type_id: 0 }],
+            builtins: vec![],
+            entry: Some(0),
+            tuples: vec![
+                TupleTypeInfo { name: None, fields: vec![] },
+                TupleTypeInfo { name: Some("Ok".into()), fields: vec![] },
+            ],
+            types: vec![Type::nil()],
+            resources: vec![],
+        };
+        let tuples = bc.tuples.clone();
+        let (out, _ex) = run_sync(bc, b, false);
+        let got = match &out {
+            RunOutcome::Value(v) if v.is_ok() => "ok (t 1)".to_string(),
+            RunOutcome::Value(v) if v.is_nil() => "ok (t 0)".to_string(),
+            RunOutcome::Value(v) => format!("ok other:{}", v.type_name()),
+            RunOutcome::Error(e) => format!("err {}", qverif::canon::error_class(e)),
+            RunOutcome::Panic(_) => "panic".to_string(),
+        };
+        // model stack, top first: the pushed constants in reverse, then the nil argument
+        let mut stack: Vec<String> = seq
+            .iter()
+            .rev()
+            .map(|&k| match &consts[k] {
+                Constant::Integer(z) => format!("(i {z})"),
+                Constant::Binary(_) => format!("(bc {k})"),
+            })
+            .collect();
+        stack.push("(t 0)".to_string());
+        let ans = model.ask_all(&[
+            ctx_line(&tuples, &consts, &[]),
+            format!("(equaln {count} {})", stack.join(" ")),
+        ]);
+        // the model answers with the whole stack; the process result is its top
+        let want = match ans[1].as_str() {
+            x if x.starts_with("ok ") => {
+                let top = x[3..].split(") ").next().unwrap_or("");
+                format!("ok {}{}", top, if top.ends_with(')') { "" } else { ")" })
+            }
+            x => x.to_string(),
+        };
+        ev.case(&(i, count, &seq), count >= 2);
+        ev.hit(&format!("equaln:n={}:{}", count.min(6), got.split(' ').next().unwrap_or("")));
+        if got != want {
+            // oracle: for 1 <= count <= available, Ok iff all `count` top values have the same content
+            let avail = pushes + 1;
+            let oracle = if count == 0 || count > avail {
+                None
+            } else {
+                let vals: Vec<String> = stack[..count].to_vec();
+                let content = |s: &String| -> String {
+                    if let Some(k) = s.strip_prefix("(bc ").and_then(|x| x.strip_suffix(')')).and_then(|x| x.parse::<usize>().ok()) {
+                        format!("{:?}", consts[k])
+                    } else {
+                        s.clone()
+                    }
+                };
+                Some(vals.iter().all(|v| content(v) == content(&vals[0])))
+            };
+            let oracle_fails = match oracle {
+                Some(o) => got != if o { "ok (t 1)" } else { "ok (t 0)" },
+                None => false,
+            };
+            ev.violation(
+                &format!("tie=equal-n n={}", count.min(6)),
+                &format!("Equal({count}) on stack (top first) {}: implementation {got}, model {want}", stack.join(" ")),
+                json!({"broken": "correspondence model<->impl on handle_equal", "count": count, "stack_top_first": stack, "consts": ctx_line(&tuples, &consts, &[]), "impl": got, "model": want}),
+                oracle_fails,
+            );
         }
     }
 }
@@ -1189,9 +1346,9 @@ fn run_described(ev: &mut Ev, model: &mut Model, b: &Builtins, j: &J, name: &str
             if g[..e.len().min(g.len())] != e[..] {
                 ev.violation(
                     &format!("corpus={name}"),
-                    &format!("corpus case {name}: verdicts {g:?}, recorded {e:?}"),
-                    json!({"mode": mode, "source": src, "modules": j["modules"], "got": g, "recorded": e}),
-                    false,
+                    &format!("corpus case {name}: verdicts {g:?}, the property demands {e:?}"),
+                    json!({"mode": mode, "source": src, "modules": j["modules"], "got": g, "recorded": e, "expect": j["expect"], "workers": j["workers"], "sched_seed": j["sched_seed"]}),
+                    true,
                 );
             }
         }
@@ -1250,6 +1407,7 @@ fn main() {
     part_sim(&mut ev, &mut model, &opts, &b);
     part_refs(&mut ev, &mut model, &opts, &b);
     part_direct(&mut ev, &mut model, &opts, &b);
+    part_equaln(&mut ev, &mut model, &opts, &b);
     ev.set_extra("model_requests", json!(model.requests));
     std::process::exit(ev.finish());
 }
